@@ -431,11 +431,8 @@ fn log_enum_impl(maxrec: usize, stride: usize, name: &str) {
 	let b = BLOCK_SIZE;
 	let h = HEADER_SIZE;
 	let lens: Vec<usize> = vec![1, 100, b - h - 1, b - h, b - h + 1, b - 2 * h - 1, 2 * b + 5];
-	let mut cases = 0u64;
-	let mut nontrivial = 0u64;
-	let mut failures: Vec<String> = Vec::new();
-	let mut samples: Vec<String> = Vec::new();
-	let mut checks = 0u64;
+	// work items: (record lengths, number of records written in the first session (0 = one session), n)
+	let mut items: Vec<(Vec<usize>, usize, usize)> = Vec::new();
 	for n in 1..=maxrec {
 		for code in 0..lens.len().pow(n as u32) {
 			let mut seq = Vec::new();
@@ -445,7 +442,27 @@ fn log_enum_impl(maxrec: usize, stride: usize, name: &str) {
 				x /= lens.len();
 			}
 			for split in 0..n {
-				// split = number of records written in the first session (0 = one session)
+				items.push((seq.clone(), split, n));
+			}
+		}
+	}
+	// the cases are independent (own directory each): spread them over worker threads
+	let nthreads = 8usize;
+	let items = std::sync::Arc::new(items);
+	let mut handles = Vec::new();
+	for tid in 0..nthreads {
+		let items = items.clone();
+		handles.push(std::thread::spawn(move || {
+			let mut cases = 0u64;
+			let mut nontrivial = 0u64;
+			let mut failures: Vec<String> = Vec::new();
+			let mut samples: Vec<String> = Vec::new();
+			let mut checks = 0u64;
+			for (idx, item) in items.iter().enumerate() {
+				if idx % nthreads != tid {
+					continue;
+				}
+				let (seq, split, n) = (item.0.clone(), item.1, item.2);
 				cases += 1;
 				let dir = tempdir::TempDir::new("verif_c12").unwrap();
 				let recs: Vec<Vec<u8>> = seq.iter().enumerate().map(|(i, &l)| (0..l).map(|j| ((i * 31 + j * 7 + l) % 251) as u8).collect()).collect();
@@ -616,8 +633,28 @@ fn log_enum_impl(maxrec: usize, stride: usize, name: &str) {
 					samples.push(format!("\"lengths {:?}, reopened after {split} record(s)\"", seq));
 				}
 			}
+			(cases, nontrivial, checks, failures, samples)
+		}));
+	}
+	let mut cases = 0u64;
+	let mut nontrivial = 0u64;
+	let mut failures: Vec<String> = Vec::new();
+	let mut samples: Vec<String> = Vec::new();
+	let mut checks = 0u64;
+	for hd in handles {
+		match hd.join() {
+			Ok((c, nt, ch, f, sm)) => {
+				cases += c;
+				nontrivial += nt;
+				checks += ch;
+				failures.extend(f);
+				samples.extend(sm);
+			}
+			Err(_) => failures.push("\"a worker thread of the driver panicked (message on stderr of the driver run)\"".to_string()),
 		}
 	}
+	failures.truncate(5);
+	samples.truncate(3);
 	println!(
 		"REPLAY-RESULT {{\"driver\":\"wal::{name}\",\"cases\":{cases},\"damage_checks\":{checks},\"distinct_nontrivial\":{nontrivial},\"samples\":[{}],\"failures\":[{}]}}",
 		samples.join(","),
